@@ -11,6 +11,8 @@ import (
 	"io"
 	"os"
 	"syscall"
+
+	"verif/simrt"
 )
 
 // Error menu.
@@ -89,6 +91,10 @@ type ReadFault struct {
 	Partial   bool   `json:"partial,omitempty"` // delivered together with the last bytes before At: (n>0, err)
 	Transient bool   `json:"transient,omitempty"`
 }
+
+// StallLimit is the number of consecutive empty reads after which a stalled link gives up on
+// its caller.
+const StallLimit = 50000
 
 // Link is the receiving side: an io.Reader over data.
 type Link struct {
@@ -173,6 +179,19 @@ func (l *Link) Read(p []byte) (int, error) {
 	copy(p, l.Data[l.Pos:l.Pos+n])
 	l.Pos += n
 	atFault := l.Fault != nil && !l.faultDone && l.Pos >= l.Fault.At && l.Fault.At <= len(l.Data)
+	if atFault && l.Fault.Err == "stall" {
+		// the stream neither ends nor fails: from here on every Read returns (0, nil). A
+		// caller that keeps asking is stopped after StallLimit such reads ("hang")
+		if n > 0 {
+			return n, nil
+		}
+		l.FaultFired = true
+		l.Stalls++
+		if l.Stalls > StallLimit {
+			panic(&simrt.Sentinel{Kind: "hang", Value: int64(l.Stalls), Limit: StallLimit})
+		}
+		return 0, nil
+	}
 	if atFault && l.Fault.Transient && l.Fault.Partial && n == len(p) && n > 0 {
 		// a failure that goes away again must not arrive together with the LAST byte a request
 		// asked for (io.ReadFull rightly drops such an error and nobody would ever see it):
